@@ -12,6 +12,7 @@ RULE = ("nn-op catalogue (activations, softmax family, losses x reductions, line
         "table, stride-bounds sanitizer on every as_strided view; distinct key = (op, form, argclass, dtype, value class, verdict); "
         "non-trivial = output has >1 element or rejection side")
 RULE += (' Added after the seeded rounds: the same configuration called first in the other dtype; batch-norm histories with numeric momentum (0.0, 0.5) and eps 1e-3; condition-aware float32 bound for batch norm.')
+RULE += (" Round 6 / reach monitor: the nn.Flatten layer (defaults, every start/end pair, keyword form); padding='same' with a stride must be refused.")
 ASSUMPTIONS = ["reference models written from the PyTorch documentation (cross-correlation, floor output size, -inf max-pool padding, zero avg-pool "
                "padding counted, channel-major unfold rows, row-major blocks, biased batch variance)",
                "forward-error bound K*eps(dtype)*max(|ref|, ref(|operands|), max|operand|), K = 32+4*log2(n) (256 for batch norm)",
